@@ -287,7 +287,9 @@ func Exec(p Plan) *History {
 	h := &History{SC: ServiceConfig(p)}
 	lis := bufconn.Listen(1 << 20)
 	srvState := &server{plan: p, logs: map[string][]*AttemptLog{}}
-	srv := grpc.NewServer(grpc.UnknownServiceHandler(srvState.handle), grpc.ForceServerCodec(rawCodec{}))
+	// static 64 KB windows: flow control (and thereby what a blocked sender
+	// experiences) does not depend on the BDP estimator
+	srv := grpc.NewServer(grpc.UnknownServiceHandler(srvState.handle), grpc.ForceServerCodec(rawCodec{}), grpc.StaticStreamWindowSize(65535), grpc.StaticConnWindowSize(65535))
 	srvDone := make(chan struct{})
 	go func() { defer close(srvDone); _ = srv.Serve(lis) }()
 	opts := []grpc.DialOption{
